@@ -157,8 +157,9 @@ Absorbable(o) == phase[o] = "next" /\ adapted[o] /\ itemQ[o] # <<>> /\ Head(item
 NextAbsorb(o) ==
   /\ Absorbable(o)
   /\ itemQ' = [itemQ EXCEPT ![o] = Tail(@)]
+  /\ got' = [got EXCEPT ![o] = Append(@, Head(itemQ[o]))]        \* consumed by the operation's adapter chain
   /\ deadline' = [deadline EXCEPT ![o] = IF Timed(tmo[o]) THEN now + Dur(tmo[o]) ELSE NoDeadline]
-  /\ UNCHANGED <<alloc, queues, maps, reply, itemTx, itemRx, phase, kind, oid, target, tmo, adapted, sstate, sres, envv, hist, now>>
+  /\ UNCHANGED <<alloc, queues, maps, reply, itemTx, itemRx, phase, kind, oid, target, tmo, adapted, sstate, sres, envv, sentFor, now>>
 
 NextItem(o) ==        \* an entry / referral / intermediate message
   /\ phase[o] = "next" /\ itemQ[o] # <<>> /\ Head(itemQ[o]).typ # "done" /\ ~Absorbable(o)
